@@ -124,9 +124,13 @@ def r1_threading(cx):
         if name == "FollowedBy":
             chk(cx, not right[0]["in_try"], right[0]["node"], "FollowedBy fails when the look-ahead fails (not caught)", "right.process outside try")
         else:
-            chk(cx, right[0]["in_try"] and rets and rets[0]["in_handler"], right[0]["node"], "NotFollowedBy succeeds exactly when the look-ahead fails (return in the except arm)", "return in handler=%s" % (rets[0]["in_handler"] if rets else None))
             els = [r for r in f.raises if r.get("in_else")]
-            chk(cx, len(els) == 1, els[0]["node"] if els else fn, "NotFollowedBy fails when the look-ahead succeeds (raise in the else arm)", "raise in else: %d" % len(els))
+            direct = bool(right[0]["in_try"] and rets and rets[0]["in_handler"]) and len(els) == 1
+            pv = _lookahead_paths(fn) if not direct and right[0]["in_try"] else None
+            chk(cx, direct or (pv is not None and pv[0]), right[0]["node"], "NotFollowedBy succeeds exactly when the look-ahead fails (every path through the except arm returns)",
+                "return in handler=%s" % (rets[0]["in_handler"] if rets else None) if pv is None else pv[2])
+            chk(cx, direct or (pv is not None and pv[1]), els[0]["node"] if els else fn, "NotFollowedBy fails when the look-ahead succeeds (every path on which it returned normally raises)",
+                "raise in else: %d" % len(els) if pv is None else pv[2])
 
     # ---- KeepLeft / KeepRight ---------------------------------------------------
     for name in ("KeepLeft", "KeepRight"):
@@ -339,6 +343,37 @@ def _charset(e, m, counts, depth=0):
         return _charset(m.top[e.id], m, counts, depth + 1)
     t = text(e)
     return set(t) if t is not None else None
+
+
+def _lookahead_paths(fn):
+    """Paths of a process() that runs its look-ahead inside a try, with constant propagation of boolean flags (followed = True / False):
+    (every feasible path through the except arm ends in return, every feasible path without it ends in raise, text)."""
+    from .. import feat
+    try:
+        pths = feat.paths(fn.body)
+    except ValueError:
+        return None
+    exc_ends, ok_ends = [], []
+    for trail, end in pths:
+        consts, feasible, exc = {}, True, False
+        for item in trail:
+            if item[0] == "cond":
+                if item[1].startswith("except"):
+                    exc = True
+                elif item[1] in consts and consts[item[1]] != item[2]:
+                    feasible = False
+                    break
+                continue
+            st = item[1]
+            if isinstance(st, ast.Assign) and len(st.targets) == 1 and isinstance(st.targets[0], ast.Name):
+                if isinstance(st.value, ast.Constant) and isinstance(st.value.value, bool):
+                    consts[st.targets[0].id] = st.value.value
+                else:
+                    consts.pop(st.targets[0].id, None)
+        if feasible:
+            (exc_ends if exc else ok_ends).append(end)
+    return (bool(exc_ends) and all(e == "return" for e in exc_ends), bool(ok_ends) and all(e == "raise" for e in ok_ends),
+            "look-ahead failed -> %s; look-ahead succeeded -> %s" % (sorted(set(exc_ends)), sorted(set(ok_ends))))
 
 
 def r3_taglang(cx):
